@@ -9,7 +9,7 @@
 """
 import re
 
-from vlib.facts import kids, strip, walk, is_call, call_args, call_object, callee, render, literal
+from vlib.facts import noid, kids, strip, walk, is_call, call_args, call_object, callee, render, literal
 from vlib.cfg import write_target
 from vlib.work import AnalysisBroken
 from vlib.flow import lex_keys
@@ -137,9 +137,21 @@ def run(ctx):
         fs = rcfg.facts_at(c, RIN)
         d = a0.get("d")
         bparam = rs.d["params"][0]["d"]
-        ok = any(pol and rcfg.fact_node((k, pol))["k"] == "BinaryOperator" and rcfg.fact_node((k, pol)).get("op") in ("<=", "<") and
-                 {"d%d" % d, "d%d" % bparam} <= rcfg._mention[(k, pol)] and k.replace(" ", "").endswith("this->size)") for (k, pol) in fs)
-        R.ob("C03-R2", ok, rs.q, "place:slice(offset, bytes) range guard", rs.site(c), "dominated by offset + bytes <= size" if ok else "a hole placement is not bounded by the pool size")
+        # the request as it occupies the pool: the local that rounds the byte count up to whole alignment cells
+        aligned = {v["d"] for v in rs.walk() if v["k"] == "VarDecl" and kids(v) and any(x["k"] == "DeclRefExpr" and x.get("d") == bparam for x in walk(v)) and
+                   noid(render(kids(v)[0], False)).count("alignment") >= 2 and "/" in noid(render(kids(v)[0], False)) and "*" in noid(render(kids(v)[0], False))}
+        if not aligned:
+            raise AnalysisBroken("reserve: the aligned footprint of the request was not found")
+        def guard(req):
+            return any(pol and rcfg.fact_node((k, pol))["k"] == "BinaryOperator" and rcfg.fact_node((k, pol)).get("op") in ("<=", "<") and
+                       "d%d" % d in rcfg._mention[(k, pol)] and (req & {int(t[1:]) for t in rcfg._mention[(k, pol)] if t[1:].isdigit()}) and
+                       k.replace(" ", "").endswith("this->size)") for (k, pol) in fs)
+        ok = guard(aligned)
+        raw = (not ok) and guard({bparam})
+        R.ob("C03-R2", ok, rs.q, "place:slice(offset, bytes) range guard", rs.site(c),
+             "dominated by offset + aligned footprint <= size" if ok else
+             ("the fit is tested with the raw byte count, but the reservation occupies whole alignment cells: with a size that is no multiple of the alignment the last cell is handed out although the pool does not contain it (reserved() > size())"
+              if raw else "a hole placement is not bounded by the pool size"))
         defs = rs.local_defs().get(d, [])
         good = True
         detail = []
@@ -164,8 +176,8 @@ def run(ctx):
             for n in walk(kids(loops[0])[-1]):
                 if n["k"] == "IfStmt" and any(x["k"] == "BreakStmt" for x in walk(kids(n)[1])):
                     cnd = render(kids(n)[0], False).replace(" ", "")
-                    brk = cnd.startswith("(mlo>=") and "offset+bytes" in cnd
-        R.ob("C03-R2", ok and brk, rs.q, "scan:ordered walk stops at the first fitting gap", rs.site(loops[0]) if loops else rs.relfile, "walks `reservations` in order and stops when the next reservation starts at or after offset+bytes")
+                    brk = cnd.startswith("(mlo>=") and any(x["k"] == "DeclRefExpr" and x.get("d") in aligned for x in walk(kids(n)[0])) and "offset+" in cnd
+        R.ob("C03-R2", ok and brk, rs.q, "scan:ordered walk stops at the first fitting gap", rs.site(loops[0]) if loops else rs.relfile, "walks `reservations` in order and stops when the next reservation starts at or after offset + aligned footprint")
 
     # ---- R3 --------------------------------------------------------------------------
     def migration_checks(f, newbuf_name="newBuffer"):
